@@ -177,6 +177,21 @@ pub fn tokens() -> SeqFamily {
     }
 }
 
+/// pieces numbers, projections and suffixes are made of, joined without blanks
+const NUMERAL_PIECES: [&str; 17] = ["t", ".", "0", "1", "9", "10", "12", "1.5", "e", "f32", "i8", "_", " ", ";", "(", ")", "x"];
+
+pub fn numerals() -> SeqFamily {
+    SeqFamily {
+        name: "numerals",
+        rule: "all strings of up to 5 (quick) / 6 (thorough) pieces over 17 pieces that numbers, tuple projections and literal suffixes are made of (t . 0 1 9 10 12 1.5 e f32 i8 _ blank ; ( ) x), joined without blanks, each at top level and embedded in `fn main() { ... }`: projection chains with indices of different widths, floats next to projections, exponents, suffixes glued to digits; lexed, parsed and compiled; oracles: tokens tile the text, tree text = input, ranges inside the text, no panic; distinct = distinct token-kind sequences",
+        alphabet: &NUMERAL_PIECES,
+        sep: "",
+        max_q: 5,
+        max_t: 6,
+        embed: true,
+    }
+}
+
 impl Family for SeqFamily {
     fn name(&self) -> &'static str {
         self.name
